@@ -560,7 +560,10 @@ class Polygon(Shape2D):
             (np.sum(points[:-1] * points[:-1], axis=1) / 2, [0])
         )
         x, resids, _, _ = np.linalg.lstsq(points, half_point_lengths, None)
-        if len(self.vertices) > 3 and not np.isclose(resids, 0):
+        # The residual has units of length^4: compare it with the scale of the system.
+        if len(self.vertices) > 3 and not np.isclose(
+            resids, 0, atol=1e-8 * np.sum(half_point_lengths**2)
+        ):
             raise RuntimeError("No circumcircle for this polygon.")
 
         return Circle(np.linalg.norm(x), x + self.vertices[0])
@@ -623,7 +626,10 @@ class Polygon(Shape2D):
         )
 
         x, resids, _, _ = np.linalg.lstsq(a, b, None)
-        if len(self.vertices) > 3 and not np.isclose(resids, 0):
+        # The residual has units of length^2: compare it with the extent of the polygon.
+        if len(self.vertices) > 3 and not np.isclose(
+            resids, 0, atol=1e-8 * np.sum(np.ptp(self.vertices, axis=0) ** 2)
+        ):
             raise RuntimeError("No incircle for this polygon.")
 
         return Circle(x[3], x[:3])
